@@ -101,6 +101,8 @@ type readerKey struct {
 	types map[string]bool
 	vars  map[string]bool // local variables influenced
 	objs  map[types.Object]bool
+	// fields the looked-up value flows into, decided on the SSA form (ext_d.go)
+	fields []string
 }
 
 // readerKeys: every const-string index into a Dict in type1.Read with the asserted types.
@@ -200,6 +202,19 @@ func (c *Ctx) readerKeys() map[string]*readerKey {
 		})
 	}
 	visit(fd.Body, nil)
+	// the same table read off the value flow of the SSA form: keys looked up through helpers that
+	// get the key as an argument, types asserted anywhere on the way, the field reached
+	for k, fl := range c.readerKeyFlows() {
+		rk := out[k]
+		if rk == nil {
+			rk = &readerKey{dict: "", key: k, types: map[string]bool{}, vars: map[string]bool{}, objs: map[types.Object]bool{}}
+			out[k] = rk
+		}
+		for t := range fl.types {
+			rk.types[t] = true
+		}
+		rk.fields = sortedKeys(fl.fields)
+	}
 	return out
 }
 
@@ -331,6 +346,9 @@ func runRoundTrip(c *Ctx, closure bool) {
 
 	// ---------------- defaults vs elision conditions (C09 and C10)
 	c.defaultElision(info)
+	// ---------------- every real number is printed in a form that reads back as the same number
+	// (C08's rule W-NUMEXACT, ext_d.go: the template's own printing, printf formats, FuncMap functions)
+	c.numbersExact()
 	// ---------------- the encoder tracks the position the decoder reconstructs (C20's rule; coordinates "within 0.005 / 1/214")
 	c.positionTracking(info)
 	// ---------------- no unescaped string reaches the program text
@@ -480,6 +498,9 @@ func (c *Ctx) fieldCorrespondence(info *types.Info, tk []tmplKey, rk map[string]
 			continue // FontMatrix default handling, Encoding, CharStrings: structural
 		}
 		g := fieldOfKey(r)
+		if g == "" {
+			g = strings.Join(r.fields, "|")
+		}
 		n++
 		c.check(g == w, "RT-FIELDS", "type1.makeTemplateData / type1.Read", fmt.Sprintf("/%s: written from %s, read into %s", k.key, w, g), token.NoPos, "same font field on both sides",
 			fmt.Sprintf("/%s is written from %s but the reader stores it into %s", k.key, w, g))
@@ -501,7 +522,13 @@ func (c *Ctx) defaultElision(info *types.Info) {
 			}
 		})
 		consts = uniqFloats(consts)
-		if len(consts) == 1 {
+		// the reader evaluated with the entry absent: what it stores is the default, wherever the
+		// constant is written (inline, argument of a helper shared between keys, generic helper)
+		d, evaluated := c.readerDefaultEval(key)
+		switch {
+		case evaluated && (len(consts) != 1 || consts[0] == d):
+			defaults[key] = d
+		case !evaluated && len(consts) == 1:
 			defaults[key] = consts[0]
 		}
 	}
